@@ -434,6 +434,19 @@ def run(prop, tier):
             slim = dict(t)
             rep.violation("%s-%s-%s" % (t["kind"], t["dir"], "-".join(sorted(cl))),
                           {"property": prop, "engine": "FramingTrace", "tag": t["kind"] + "/" + t["dir"], "trace": slim, "verdict": v})
+    if prop == "C11":
+        # the same property through serving handlers (serial-style and stream handlers on serial framings)
+        import servercheck
+        stc = servercheck.gen_c11_server(tier, rng)
+        sv, sst = validate_traces("ServerTrace", "ServerTrace.cfg", stc, timeout=3000)
+        rep.add_tv(sst, len(stc), sum(len(t["ev"]) for t in stc))
+        for t in stc:
+            v = sv[t["id"]]
+            if v["status"] == "FAIL" and "ServerResync" in v["clauses"]:
+                rep.violation("handler-%s-%s-ServerResync" % (t["fe"], t["kind"]),
+                              {"property": prop, "engine": "ServerTrace", "tag": t["fe"], "trace": t, "verdict": v})
+            elif v["status"] == "OK":
+                rep.distinct(("handler", t["fe"], t["kind"], t["g"], len(t["ev"])))
     # self-test of the binding: drop a delivery / forge a delivery / corrupt a built byte
     base = next((t for t in ok if any(c.get("delivered") for c in t["calls"])), None)
     muts = []
